@@ -126,7 +126,9 @@ def runStr (r : Run Float) : String :=
   | .error e => s!"err\t{e.str}\t{effsStr r.effects}"
   | .ok o =>
     let u := match o.unit with | some u => unitStr u | none => "none\tnone\tnone"
-    let f := match o.factor with | some f => bitsStr f | none => "none"
+    let f := match o.factor with
+      | some f => bitsStr f
+      | none => match o.factorFirst with | some f => "first:" ++ bitsStr f | none => "none"
     let z := match o.factorItemsize with | some n => toString n | none => "none"
     let e := match o.early with | some true => "1" | some false => "0" | none => "none"
     s!"ok\t{u}\t{f}\t{z}\t{bitsStr o.mul}\t{e}\t{effsStr r.effects}"
